@@ -943,20 +943,25 @@ def wl_headers(ctx, rng, idx, n):
         for _ in range(length):
             bits4 = ch.bits4_from_compact(rng.choice(EASY_BITS if (ctx.tier == "thorough" and ci % 50 == 7) else EASY_BITS[:4]))
             raw = mine(rng, rng.getrandbits(32), prev, rng.getrandbits(256).to_bytes(32, "big"), rng.getrandbits(32), bits4)
+            if raw is None:
+                break  # no nonce found within the search limit (hard target): skip this chain
             raws.append(raw)
             prev = ch.header_hash_be(raw)
+        if len(raws) != length:
+            ctx.count("observed:chain-skipped-no-nonce-found")
+            continue
         variants = [("valid", raws)]
         j = rng.randrange(length)
         f = ch.header_parse(raws[j])
         # failing proof of work at position j (same linkage for j's successor is lost too, so rebuild the tail)
         bad = mine(rng, f["version"], f["prev_be"], f["root_be"], f["timestamp"], bytes.fromhex("ffff001d"), want=False)
         tail = list(raws[:j]) + [bad]
-        prev = ch.header_hash_be(bad)
+        prev = ch.header_hash_be(bad) if bad is not None else None
         for r in raws[j + 1 :]:
             g = ch.header_parse(r)
-            nr = mine(rng, g["version"], prev, g["root_be"], g["timestamp"], g["bits4"])
+            nr = mine(rng, g["version"], prev, g["root_be"], g["timestamp"], g["bits4"]) if prev is not None else None
             tail.append(nr)
-            prev = ch.header_hash_be(nr)
+            prev = ch.header_hash_be(nr) if nr is not None else None
         variants.append(("broken-pow", tail))
         if length > 1:
             j = rng.randrange(1, length)
